@@ -42,6 +42,12 @@ fn catalog() -> Arc<Cat> {
     for (n, a) in [("www.example.test.", 4u8), ("ns.example.test.", 9), ("*.wild.example.test.", 5), ("*.w2.example.test.", 6), ("mail.example.test.", 7)] {
         zone.add(&nm(n), Type::A, Class::IN, Ttl::from(60), (&[192u8, 0, 2, a][..]).try_into().unwrap()).unwrap();
     }
+    // a wildcard whose TXT RRset does not fit a 512-octet response: the truncated answer still belongs to the wildcard's stream
+    for c in [b'p', b'q', b'r', b's'] {
+        let mut rd = vec![200u8];
+        rd.extend(std::iter::repeat(c).take(200));
+        zone.add(&nm("*.fat.example.test."), Type::TXT, Class::IN, Ttl::from(60), rd.as_slice().try_into().unwrap()).unwrap();
+    }
     zone.add(&nm("txt.example.test."), Type::TXT, Class::IN, Ttl::from(60), (&[1u8, b'x'][..]).try_into().unwrap()).unwrap();
     let mut cat = Cat::new();
     cat.insert(Entry::Loaded(Arc::new(zone), ()));
@@ -58,6 +64,8 @@ fn qpool() -> Vec<(&'static str, &'static str)> {
         ("b.wild.example.test.", "*.wild.example.test."),
         ("x.y.wild.example.test.", "*.wild.example.test."),
         ("a.w2.example.test.", "*.w2.example.test."),
+        ("a.fat.example.test.", "*.fat.example.test."),
+        ("b.fat.example.test.", "*.fat.example.test."),
         ("txt.example.test.", "txt.example.test."),      // NODATA for type A: NOERROR
         ("mail.example.test.", "mail.example.test."),
         ("example.test.", "example.test."),
@@ -82,6 +90,11 @@ fn sources() -> Vec<IpAddr> {
         "::ffff:10.1.2.3".parse::<Ipv6Addr>().unwrap().into(),      // IPv4-mapped: counts as 10.1.2.3
         "::ffff:10.1.2.77".parse::<Ipv6Addr>().unwrap().into(),
         "::fffe:10.1.2.3".parse::<Ipv6Addr>().unwrap().into(),      // not mapped
+        // plain IPv6 addresses in ::/96 ("IPv4-compatible"): never an IPv4 stream
+        "::1".parse::<Ipv6Addr>().unwrap().into(),
+        "::2:0:0:1".parse::<Ipv6Addr>().unwrap().into(),
+        "::10.1.2.3".parse::<Ipv6Addr>().unwrap().into(),
+        "::10.1.2.99".parse::<Ipv6Addr>().unwrap().into(),
     ]
 }
 
@@ -194,7 +207,7 @@ fn session(r: &mut StdRng, cat: &Arc<Cat>, log: &Arc<Mutex<Vec<Value>>>, out: &m
         }
         let qname = if single_stream && r.gen_bool(0.3) { rand_case(r, qn) } else { qn.to_string() };
         m.extend_from_slice(&w(&qname));
-        let qtype: u16 = if r.gen_bool(0.85) { 1 } else { *[16u16, 255, 28].choose(r).unwrap() };
+        let qtype: u16 = if qn.contains(".fat.") && r.gen_bool(0.75) { 16 } else if r.gen_bool(0.85) { 1 } else { *[16u16, 255, 28].choose(r).unwrap() };
         m.extend_from_slice(&qtype.to_be_bytes());
         m.extend_from_slice(&[0, 1]);
         if r.gen_bool(0.2) {
@@ -299,10 +312,13 @@ fn burst(r: &mut StdRng, cat: &Arc<Cat>, log: &Arc<Mutex<Vec<Value>>>, out: &mut
     let server = Arc::new(server);
     log.lock().unwrap().clear();
     let barrier = Arc::new(Barrier::new(nthreads));
+    // a spin gate after the barrier: the threads' first requests (the ones that create the stream's entry) start
+    // within a few hundred nanoseconds of each other instead of in wake-up order
+    let gate = Arc::new(std::sync::atomic::AtomicUsize::new(0));
     let totals = Arc::new(Mutex::new((0usize, 0usize, 0usize)));
     let handles: Vec<_> = (0..nthreads)
         .map(|t| {
-            let (server, barrier, totals) = (server.clone(), barrier.clone(), totals.clone());
+            let (server, barrier, totals, gate) = (server.clone(), barrier.clone(), totals.clone(), gate.clone());
             std::thread::Builder::new()
                 .name(format!("t{}", t))
                 .spawn(move || {
@@ -311,6 +327,9 @@ fn burst(r: &mut StdRng, cat: &Arc<Cat>, log: &Arc<Mutex<Vec<Value>>>, out: &mut
                     m.extend_from_slice(&[0, 1, 0, 1]);
                     let mut buf = vec![0u8; 1232];
                     barrier.wait();
+                    gate.fetch_add(1, std::sync::atomic::Ordering::SeqCst);
+                    let mut spins = 0u32;
+                    while gate.load(std::sync::atomic::Ordering::SeqCst) < nthreads && spins < 50_000_000 { std::hint::spin_loop(); spins += 1; }
                     let (mut full, mut lim, mut panics) = (0, 0, 0);
                     for i in 0..per {
                         if yields && i % 3 == t % 3 { std::thread::yield_now(); }
